@@ -177,6 +177,12 @@ def separatedB (t : Rat) (points : List Pt) (labels : List Nat) : Bool :=
 def firsts (cl : Nat → Nat) (n : Nat) : List Nat :=
   (List.range n).filter (fun i => (List.range i).all (fun j => cl j != cl i))
 
+/-- the two endpoints of an edge `[start, end, tags…]` lie in the same cluster -/
+def sameCluster (cl : Nat → Nat) (e : List Nat) : Bool :=
+  match e with
+  | a :: b :: _ => decide (cl a = cl b)
+  | _ => false
+
 /-! ### `fracs.utils.uniquify_points` (edges are columns `[start, end, tags…]`) -/
 
 def mapEdge (o2n : List Nat) (e : List Nat) : List Nat :=
